@@ -14,7 +14,9 @@ an index k in program order:
 
 Plan: {"crash_after": k, "tear": None|"half"|"none"} kills the run right after effect k
       (tear applies to a flush/append effect k: only half / nothing of the data lands);
-      {"oserror_at": k} raises OSError(EIO) INSTEAD of effect k and lets tally's own handlers run.
+      {"oserror_at": k} raises OSError(EIO) INSTEAD of effect k and lets tally's own handlers run;
+      {"oserror_at": k, "whole_move": True} (k = a rename issued by shutil.move): the move as a whole fails - the rename
+      raises and so does every step of shutil.move's copy fallback, so the caller sees one failed "move" step.
 After a crash every later effect is a no-op (so unwinding `with` blocks cannot write anything).
 """
 import builtins
@@ -36,6 +38,10 @@ class FaultFS:
         self.crashed = False
         self._real_open = builtins.open
         self._real = {n: getattr(os, n) for n in ("rename", "replace", "mkdir", "remove", "unlink", "rmdir")}
+        import shutil
+        self._real_move = shutil.move
+        self._move_depth = 0
+        self._fail_move = False
 
     # -------------------------------------------------------------------------------- bookkeeping
     def _inside(self, path):
@@ -56,8 +62,15 @@ class FaultFS:
         self.log.append({"k": k, "kind": kind, "path": self._rel(path)})
         if src is not None:
             self.log[-1]["src"] = self._rel(src)
+        if self._move_depth > 0:
+            self.log[-1]["in_move"] = True
+            if self._fail_move:
+                self.log[-1]["injected"] = "OSError (move fallback)"
+                raise OSError(errno.EIO, "injected I/O error", os.fspath(path))
         if self.plan.get("oserror_at") == k:
             self.log[-1]["injected"] = "OSError"
+            if self.plan.get("whole_move") and self._move_depth > 0:
+                self._fail_move = True
             raise OSError(errno.EIO, "injected I/O error", os.fspath(path))
         try:
             if self.plan.get("crash_after") == k:
@@ -181,7 +194,18 @@ class FaultFS:
             return self._effect(kind, path, lambda: real(path, *a, **kw))
         return patched
 
+    def _move(self, src, dst, *a, **kw):
+        self._move_depth += 1
+        try:
+            return self._real_move(src, dst, *a, **kw)
+        finally:
+            self._move_depth -= 1
+            if self._move_depth == 0:
+                self._fail_move = False
+
     def install(self):
+        import shutil
+        shutil.move = self._move
         builtins.open = self._open
         io.open = self._open
         os.rename = self._rename("rename")
@@ -193,6 +217,8 @@ class FaultFS:
         return self
 
     def uninstall(self):
+        import shutil
+        shutil.move = self._real_move
         builtins.open = self._real_open
         io.open = self._real_open
         for n, f in self._real.items():
